@@ -17,12 +17,24 @@ import (
 	"golang.org/x/crypto/sha3"
 )
 
+type keccakState interface {
+	Reset()
+	Write([]byte) (int, error)
+	Read([]byte) (int, error) // squeezes the digest without cloning the state
+}
+
 func keccak(parts ...[]byte) []byte {
-	h := sha3.NewLegacyKeccak256()
+	return keccakWith(sha3.NewLegacyKeccak256().(keccakState), parts...)
+}
+
+func keccakWith(h keccakState, parts ...[]byte) []byte {
+	h.Reset()
 	for _, p := range parts {
 		h.Write(p)
 	}
-	return h.Sum(nil)
+	out := make([]byte, 32)
+	h.Read(out)
+	return out
 }
 
 // BMT returns the BMT address of span||payload: the payload is zero-padded
@@ -34,17 +46,38 @@ func BMT(data []byte) []byte {
 	if len(data) < boson.SpanSize || len(data) > max+boson.SpanSize {
 		return nil
 	}
-	buf := make([]byte, max)
-	copy(buf, data[boson.SpanSize:])
-	level := buf
-	for len(level) > boson.SectionSize {
-		next := make([]byte, 0, len(level)/2)
-		for i := 0; i < len(level); i += 2 * boson.SectionSize {
-			next = append(next, keccak(level[i:i+2*boson.SectionSize])...)
+	payload := data[boson.SpanSize:]
+	h := sha3.NewLegacyKeccak256().(keccakState)
+	// level 0: the 32-byte segments that contain payload bytes; everything to
+	// the right of them is an all-zero subtree whose hash depends on the level only.
+	var level [][]byte
+	for i := 0; i < len(payload); i += boson.SectionSize {
+		if i+boson.SectionSize <= len(payload) {
+			level = append(level, payload[i:i+boson.SectionSize])
+			continue
 		}
+		seg := make([]byte, boson.SectionSize)
+		copy(seg, payload[i:])
+		level = append(level, seg)
+	}
+	zero := make([]byte, boson.SectionSize)
+	for width := boson.BmtBranches; width > 1; width /= 2 {
+		var next [][]byte
+		for i := 0; i < len(level); i += 2 {
+			right := zero
+			if i+1 < len(level) {
+				right = level[i+1]
+			}
+			next = append(next, keccakWith(h, level[i], right))
+		}
+		zero = keccakWith(h, zero, zero)
 		level = next
 	}
-	return keccak(data[:boson.SpanSize], level)
+	root := zero
+	if len(level) > 0 {
+		root = level[0]
+	}
+	return keccak(data[:boson.SpanSize], root)
 }
 
 // CACValid: 8 <= len(data) <= ChunkSize+8 and BMT(data) == addr.
